@@ -107,7 +107,7 @@ func RunC10(tier string) int {
 			w.Edges = []WEdge{{Content: P2, Loc: "", Finder: "F1", Kind: "remote", Target: P1, TFinder: "F2"}}
 			adds = []AddCall{{Kind: "remote", Addr: P2, Finder: "F1"}}
 		}
-		args[i] = BuildArg{World: w, Adds: adds, Probes: []string{P1}}
+		args[i] = BuildArg{World: w, Adds: adds, Probes: []string{P1}, Trace: true}
 		return args[i]
 	}, func(i int, r core.Result) {
 		rep.Evaluations++
@@ -128,6 +128,10 @@ func RunC10(tier string) int {
 		}
 		if len(out.Outside) > 0 {
 			bad("touched-outside-target", "changes outside the target directory: %s", strings.Join(out.Outside, "; "))
+		}
+		// also when a fetched package is refused after the download succeeded, every started piece of work ends exactly once
+		for _, v := range traceBracketing(out.Trace) {
+			bad(v[0], "%s (trace %v)", v[1], out.Trace)
 		}
 		rules := ref.Builtin()
 		rules = append(rules, ref.ParseRules(j.rules)...)
